@@ -61,9 +61,9 @@ def run_shard(spec, rep):
         rep.case(case, nontrivial=v > 0, cls="builtin" if comp.name != "S" else "random-mass")
         try:
             for a in U:
-                p = Permeance(value=v, units=a)
+                p = Permeance(value=v, units=gen._type_label(a))  # alternately the constant and an equal, non-identical string
                 for b in U:
-                    q = p.convert(b, comp)
+                    q = p.convert(gen._type_label(b), comp)
                     rep.count("conversions")
                     ref = v * _factor(a, M) / _factor(b, M)
                     c2 = dict(case, frm=a, to=b)
